@@ -119,6 +119,12 @@ def c13(ctx):
              "that the grammar requires (`than`, `into`, `be`, `as` ...) must be demanded with expect_token / expect_any, whose error is "
              "propagated (R4, ERRFLOW), so leaving it out is a parse error")
     optional_words_rule(ctx, "C13.R10")
+    rep.rule("C13.R11", "a keyword that announces an operand gets one: wherever `into` has been matched (the optional destination of cut / join / "
+             "cast / roll), every non-error path on from the match passes a *required* parser -- a parser method whose success type is not "
+             "an Option (parse_assignment_lhs, expect_identifier ...), directly or as the closure mapped over the match -- so a missing "
+             "destination is an error, not `no destination`; and build / knock demand their first `up` / `down` with expect_token(suffix) on "
+             "every non-error path (a comma alone is not an amount)")
+    required_operand_rule(ctx, "C13.R11")
     # ---- R1
     for name, exits_allowed in (("parse_block", False), ("parse_function_block", True)):
         fn = F.fn(PARSER + name)
@@ -409,6 +415,74 @@ def _statement_step_closure(ctx, fn):
     if got != want:
         return False, "the step of the statement loop yields %s; a statement is handed on only after its end-of-line check succeeded, errors are handed on, and the loop ends when there is no statement: %s" % (sorted(got), sorted(want))
     return True, ""
+
+
+def _required_parser(F, t):
+    d = t["callee"].get("resolved") or callee_def(t) or ""
+    if not d.startswith(PARSER):
+        return False
+    h = F.fn(d)
+    if h is None:
+        return False
+    ret = F.ty(h.d["ret"]).s
+    return ret.startswith("std::result::Result<") and not ret.startswith("std::result::Result<std::option::Option<") and not ret.startswith("std::result::Result<(), ")
+
+
+def required_operand_rule(ctx, rule):
+    F, rep = ctx.F, ctx.rep
+    from ..guards import _closure_use, _bool_edges, _dominated_by_edge
+    n = 0
+    for fn in F.all_bodies(tests=False):
+        if not fn.file.endswith("frontend/parser.rs"):
+            continue
+        for bi, t in fn.calls():
+            if callee_def(t) != PARSER + "match_and_consume" or len(t["args"]) < 2 or tokens.resolve_token_set(F, fn, t["args"][1]) != {"Into"}:
+                continue
+            n += 1
+            top = common.top_fn(F, fn)
+            rep.analysed(top)
+            ok = False
+            # (a) a closure mapped directly over the match result whose every path passes a required parser
+            for b2 in F.with_closures(fn):
+                if b2 is fn or b2.kind != "closure":
+                    continue
+                u = _closure_use(F, b2)
+                if u and u[0] is fn and u[2]["callee"].get("name") in ("map", "and_then") and any(d == ("call", bi) for d, _ in origins(fn, u[2]["args"][0])):
+                    req = [b3 for b3, t3 in b2.calls() if _required_parser(F, t3)]
+                    if req and not path_to_return_avoiding(b2, req):
+                        ok = True
+            # (b) on the matched edge in the same body
+            if not ok:
+                edges = []
+                for b3, t3 in fn.calls():
+                    if t3["callee"].get("name") in ("is_some", "is_none") and bi in progress.deep_sources(fn, t3["args"][0]):
+                        e = _bool_edges(fn, b3)
+                        if e:
+                            edges.append((e[0], e[2] if t3["callee"]["name"] == "is_some" else e[1]))
+                for sb in range(len(fn.blocks)):
+                    sw = tables.arms_complete(fn, sb)
+                    if sw and "Some" in sw[2] and bi in progress.deep_sources(fn, {"copy": {"l": sw[0]["l"], "p": []}}):
+                        edges.append((sb, sw[2]["Some"]))
+                req = [b3 for b3, t3 in fn.calls() if _required_parser(F, t3)]
+                for sb, tg in edges:
+                    if req and not path_to_return_avoiding(fn, req, start=tg):
+                        ok = True
+            rep.ob(rule, "operand-after-into::%s" % top.path.rsplit("::", 1)[-1], ok,
+                   "" if ok else "%s matches `into` and can then return normally without a required parser having run: `... into` with nothing after it is accepted as if there were no destination" % top.path.rsplit("::", 1)[-1],
+                   fn.loc(t["line"]), how="parse_assignment_lhs / expect_* on every path after the match")
+    rep.floor(rule, n, 1, "optional `into` matches")
+    bk = F.fn(PARSER + "parse_build_knock_helper")
+    if bk is None:
+        rep.fail(rule, "anchor::build_knock", "Parser::parse_build_knock_helper not found")
+    else:
+        rep.analysed(bk)
+        sfx = [i for i in range(1, bk.argc + 1) if bk.local_name(i) == "suffix"]
+        exps = [b3 for b3, t3 in bk.calls() if callee_def(t3) in (PARSER + "expect_token", PARSER + "expect_any") and sfx
+                and any(d == ("param", sfx[0]) for a in t3["args"][1:] for d, _ in kind_deep(bk, a))]
+        ok = bool(exps) and not path_to_return_avoiding(bk, exps)
+        rep.ob(rule, "build-knock-demand-the-suffix", ok,
+               "" if ok else "parse_build_knock_helper can succeed without expect_token(suffix) having run: `build x,` is accepted without any `up`", bk.loc(),
+               how="expect_token(suffix)? on every non-error path")
 
 
 OPTIONAL_WORDS = {"And": "`x, and y`: the `and` after a separating comma", "Comma": "a `,` before the end of a line / between `up`s and `down`s",
